@@ -49,7 +49,7 @@ class Unit:
         self.parts.append(ctext.rstrip() + '\n')
 
     def _post(self, body, where, rules, generic=True, ret_zero=None, loops=None, nloops=None,
-              witness='', classmap=None):
+              witness='', classmap=None, may_throw=None):
         if generic:
             for r in lex.GENERIC:
                 body = r.apply(body, where)
@@ -59,13 +59,15 @@ class Unit:
             body, nthrow = lex.lower_throws(body, ret_zero, classmap, witness)
         for r in rules or []:
             body = r.apply(body, where)
+        if may_throw:
+            body, _ = lex.propagate_exc(body, may_throw, ret_zero if ret_zero is not None else '')
         if nloops is not None:
             body = lex.inject_loop_contracts(body, loops or {}, nloops)
         return body
 
     def function(self, src, rel, sig_regex, *, new_header=None, rules=None, ret_zero=None,
                  loops=None, nloops=None, generic=True, witness='', classmap=None, emit=True,
-                 body_prefix='', must_loops=True, scope=None):
+                 body_prefix='', must_loops=True, scope=None, may_throw=None):
         """Extract one function definition.
         new_header: C header to emit instead of the C++ one (name mangling, self parameter,
                     references as pointers).  None: reuse the C++ header after generic rewrites.
@@ -87,7 +89,7 @@ class Unit:
             nloops = 0 if not loops else None
             if nloops is None:
                 raise ExtractionBreak('%s: nloops required with loop contracts' % where)
-        body = self._post(body, where, rules, generic, ret_zero, loops, nloops, witness, classmap)
+        body = self._post(body, where, rules, generic, ret_zero, loops, nloops, witness, classmap, may_throw)
         if body_prefix:
             body = '{' + body_prefix + body[1:]
         if new_header is None:
